@@ -195,6 +195,9 @@ class Message:
                         # safe option: nuke it, its never needed
                         if chunked:
                             raise InvalidHeader("TRANSFER-ENCODING", req=self)
+                        # framed by Content-Length (or empty) although a Transfer-Encoding
+                        # is present: RFC 9112 6.1 / 6.3 want the connection closed afterwards
+                        self.force_close()
                     elif val.lower() in ('compress', 'deflate', 'gzip'):
                         # chunked should be the last one
                         if chunked:
